@@ -579,7 +579,54 @@ func classify(err error) (cls, kind, entry string) {
 
 // ---------- scenarios ----------
 
-type query struct{ ty, name string }
+// ctx: 0 = context.Background(); 's' = scripted context that reports done from its
+// (after+1)-th poll on (after = 0: done from the first poll); 'c' = a real context
+// cancelled before the call
+type query struct {
+	ty, name string
+	ctx      byte
+	after    int
+}
+
+// scriptCtx is a context.Context whose Err / Done report "deadline exceeded" after a given
+// number of polls (each call of Err or Done is one poll). It never fires on its own:
+// an implementation that polls its context between two files sees it become done at an
+// exactly reproducible place of the scan.
+type scriptCtx struct {
+	mu    sync.Mutex
+	after int
+	polls int
+	ch    chan struct{}
+	open  bool
+}
+
+func newScriptCtx(after int) *scriptCtx { return &scriptCtx{after: after, ch: make(chan struct{}), open: true} }
+
+func (c *scriptCtx) poll() bool {
+	c.mu.Lock()
+	defer c.mu.Unlock()
+	c.polls++
+	done := c.polls > c.after
+	if done && c.open {
+		close(c.ch)
+		c.open = false
+	}
+	return done
+}
+func (c *scriptCtx) Deadline() (time.Time, bool) { return time.Time{}, false }
+func (c *scriptCtx) Done() <-chan struct{}       { c.poll(); return c.ch }
+func (c *scriptCtx) Err() error {
+	if c.poll() {
+		return context.DeadlineExceeded
+	}
+	return nil
+}
+func (c *scriptCtx) Value(any) any { return nil }
+func (c *scriptCtx) Polls() int {
+	c.mu.Lock()
+	defer c.mu.Unlock()
+	return c.polls
+}
 
 type scenario struct {
 	family  string
@@ -616,6 +663,7 @@ type c13Case struct {
 	Tree   []string `json:"tree_below_root"`
 	Obs    string   `json:"observed"`
 	Step   string   `json:"history_step,omitempty"`
+	Ctx    string   `json:"context,omitempty"`
 }
 
 type gen struct {
@@ -1407,6 +1455,43 @@ func (g *gen) scenarios(tier string, emit func(*scenario)) {
 		}
 		emit(sc)
 	}
+	// F7 (ctx): the caller's context. Loadable stores of k = 2..6 files of every type, asked
+	// through ONE instance with a scripted context that is done from poll n+1 on, n = 0..k+1
+	// (an implementation that polls between files gives up before file 1, 2, .., k, after the
+	// last, or never), then with a really cancelled context, then with context.Background()
+	// (nothing of an abandoned scan may stay in the instance); the same with an offending
+	// entry last. Cases GC: judged by cagree / cspec_ok (everything, or an error - never a
+	// proper subset; an error for a loadable store only when the context can be done).
+	for r := 0; r < 1*mult; r++ {
+		for _, ty := range validTypes {
+			for k := 2; k <= 6; k++ {
+				sc := &scenario{family: "ctx:loadable", root: newDir()}
+				nm := Pick(rng, plainNames)
+				g.goodStore(sc, storeRel(ty, nm), ty, k)
+				for n := 0; n <= k+1; n++ {
+					sc.queries = append(sc.queries, query{ty: ty, name: nm, ctx: 's', after: n})
+				}
+				sc.queries = append(sc.queries, query{ty: ty, name: nm, ctx: 'c'}, query{ty: ty, name: nm})
+				emit(sc)
+			}
+			sc := &scenario{family: "ctx:bad-last", root: newDir()}
+			nm := Pick(rng, plainNames)
+			d := sc.root.mkdir(storeRel(ty, nm))
+			ns := g.names(3)
+			for i, n := range ns {
+				if i == len(ns)-1 {
+					d.ents[n] = g.badEntryFile("garbage")
+				} else {
+					d.ents[n] = g.goodFile(ty)
+				}
+			}
+			for n := 0; n <= 4; n++ {
+				sc.queries = append(sc.queries, query{ty: ty, name: nm, ctx: 's', after: n})
+			}
+			sc.queries = append(sc.queries, query{ty: ty, name: nm})
+			emit(sc)
+		}
+	}
 }
 
 // feed starts one writer per FIFO below dir: it waits (non-blocking opens) until a
@@ -1585,7 +1670,19 @@ func runC13(a *Args) error {
 						continue
 					}
 				} else {
-					certs, err = ts.GetCertificates(context.Background(), truststore.Type(q.ty), q.name)
+					var ctx context.Context = context.Background()
+					switch q.ctx {
+					case 's':
+						ctx = newScriptCtx(q.after)
+					case 'c':
+						c2, cancel := context.WithCancel(context.Background())
+						cancel()
+						ctx = c2
+					}
+					certs, err = ts.GetCertificates(ctx, truststore.Type(q.ty), q.name)
+					if sc, ok := ctx.(*scriptCtx); ok && w.Want(my) {
+						w.Count("ctx_polls_seen", fmt.Sprint(sc.Polls()))
+					}
 				}
 				stopFeed()
 				if !w.Want(my) {
@@ -1616,13 +1713,27 @@ func runC13(a *Args) error {
 					w.Count("loaded_certificates", fmt.Sprint(len(certs)))
 				}
 				var term string
+				ctxText := ""
 				if st.special {
 					term = CApp("GX", CApp("mk_xcase", CN(my), CApp("mk_xinput", CStr(q.ty), CStr(q.name), tree), obs))
+				} else if strings.HasPrefix(sc.family, "ctx:") {
+					doneAt := "None"
+					ctxText = "context.Background()"
+					switch q.ctx {
+					case 's':
+						doneAt = CSome(CN(int64(q.after)))
+						ctxText = fmt.Sprintf("scripted context: Err()/Done() report deadline exceeded from poll %d on", q.after+1)
+					case 'c':
+						doneAt = CSome(CN(0))
+						ctxText = "context.WithCancel, cancelled before the call"
+					}
+					term = CApp("GC", CApp("mk_ccase", CN(my), CApp("mk_input", CStr(q.ty), CStr(q.name), tree), doneAt, obs))
+					w.Count("ctx", map[byte]string{0: "background", 's': "scripted", 'c': "cancelled"}[q.ctx])
 				} else {
 					term = CApp("GB", CApp("mk_case", CN(my), CApp("mk_input", CStr(q.ty), CStr(q.name), tree), obs))
 				}
-				desc := c13Case{Family: sc.family, Type: q.ty, Name: q.name, Tree: lines, Obs: obsText, Step: stepText}
-				w.Add(my, term, desc, q.ty+"\x00"+q.name+"\x00"+tree, hasCerts)
+				desc := c13Case{Family: sc.family, Type: q.ty, Name: q.name, Tree: lines, Obs: obsText, Step: stepText, Ctx: ctxText}
+				w.Add(my, term, desc, q.ty+"\x00"+q.name+"\x00"+tree+"\x00"+ctxText, hasCerts)
 				w.Count("family", strings.SplitN(sc.family, ":", 2)[0])
 				if strings.HasPrefix(sc.family, "history:") {
 					w.Count("history", strings.SplitN(sc.family, ":", 2)[1])
